@@ -22,21 +22,24 @@ UNIT = {("r", "wait"): "ReadStream::wait_for_read", ("r", "eof"): "ReadStream::e
 def all_harnesses():
     hs = []
     for cap in (1, 2):
+      for off in range(cap):
         for init in range(cap + 1):
             for k in range(cap - init + 1):
                 for pre in (0, 1, 2):
                     for dec in ("wait", "eof", "closed"):
                         needs = range(1, cap + 2) if dec == "wait" else (1,)
                         for need in needs:
-                            core = cap == 2 and pre == 0 and ((dec == "wait" and need == 1 and init == 0 and k == 1) or
+                            core = cap == 2 and off == 1 and pre == 0 and ((dec == "wait" and need == 1 and init == 0 and k == 1) or
                                                               (dec == "wait" and need == 2 and init == 1 and k == 1) or
                                                               (dec == "eof" and init == 0 and k == 1) or
                                                               (dec == "closed" and init == 0 and k == 0))
-                            core = core or (cap == 2 and pre == 2 and init + k == 1 and dec != "closed" and need <= 2 and k == 1)
-                            hs.append(Harness(f"c04_r_{dec}_c{cap}_i{init}_n{need}_k{k}_p{pre}",
-                                              f"crate::c04::reader_decision({cap}, {init}, {need}, {k}, {D[dec]}, {pre})",
+                            core = core or (cap == 2 and off == 1 and pre == 2 and init + k == 1 and dec != "closed" and need <= 2 and k == 1)
+                            # full ring / data straddling the wrap point with the writer gone
+                            core = core or (cap == 2 and off == 1 and pre == 2 and init == 2 and k == 0 and dec in ("eof", "wait") and need in (1, 2))
+                            hs.append(Harness(f"c04_r_{dec}_c{cap}_o{off}_i{init}_n{need}_k{k}_p{pre}",
+                                              f"crate::c04::reader_decision({cap}, {off}, {init}, {need}, {k}, {D[dec]}, {pre})",
                                               unwind=cap + 4, unit=UNIT[("r", dec)], timeout=900,
-                                              shape={"side": "reader", "decision": dec, "cap": cap, "initial": init, "need": need,
+                                              shape={"side": "reader", "decision": dec, "cap": cap, "offset": off, "initial": init, "need": need,
                                                      "peer_commit": k, "peer_pre_step": pre}, core=core))
     for cap in (1, 2):
         for init in range(cap + 1):
@@ -47,7 +50,7 @@ def all_harnesses():
                         for need in needs:
                             core = cap == 2 and init == 2 and m == 1 and need == 1 and pre in (0, 2)
                             hs.append(Harness(f"c04_w_{dec}_c{cap}_i{init}_n{need}_m{m}_p{pre}",
-                                              f"crate::c04::writer_decision({cap}, {init}, {need}, {m}, {D[dec]}, {pre})",
+                                              f"crate::c04::writer_decision({cap}, {cap - 1}, {init}, {need}, {m}, {D[dec]}, {pre})",
                                               unwind=cap + 4, unit=UNIT[("w", dec)], timeout=900,
                                               shape={"side": "writer", "decision": dec, "cap": cap, "initial": init, "need": need,
                                                      "peer_consume": m, "peer_pre_step": pre}, core=core))
